@@ -41,7 +41,9 @@ ALPHA = ["a", "b", "c", "1", "\n", "\r", " ", ".", "|", "&", "~", "-", "[", "\
 ALPHA_S = ["a", "b", "\n", "|", "-", "\U0001F600"]
 INVALID = ["(", ")", "[", "]", "a{", "{", "}", "\\d", "\\w", "a**", "a|*", "+", "?a", "\\p{Xx}", "\\p{L", "[a", "\\",
            "(?i)a", "(?:a)", "a{,2}", "[]", "[^]", "a\\", "(a", "a)", "[a-]b]", "\\1", "a{1,2,3}", "\\p{}", "\\x41",
-           "[\\d]", "a*?", "a++", "(?=a)", "\\b"]
+           "[\\d]", "a*?", "a++", "(?=a)", "\\b",
+           # grammatical but denoting nothing in XSD / erroneous: false under any reading
+           "[b-a]", "[z-a]x", "a{2,1}", "(ab){3,2}", "[a-c-a]"]
 
 
 def BOUNDS(tier):
@@ -200,6 +202,9 @@ def run_shard(desc):
         for p in INVALID:
             assert iregexp.compile_(p) is None, p
             for fn in ("match", "search"):
+                # a valid pattern that matches everything first: whatever the function objects
+                # remember from it must not leak into the answers for the invalid pattern
+                run_query(sh, f"$[?{fn}(@, '(.|\\n|\\r)*')]", subj[:40])
                 run_query(sh, f"$[?{fn}(@, {quote(p)})]", subj[:230] + [p])
                 run_query(sh, f"$[?!{fn}(@, {quote(p)})]", subj[:30] + [p])
     else:
